@@ -2,6 +2,7 @@ SPECIFICATION Spec
 CONSTANTS
   N = 3
   MaxEdges = 3
+  Prefix = FALSE
   EdgeKinds <- Kinds4
 INVARIANT Emit
 CHECK_DEADLOCK FALSE
